@@ -65,8 +65,8 @@ Section MAIN.
   Notation md := (md_of st).
   Notation Sat := (satb rc rm fo md).
   Notation g_rw_here := (g_rw_here rc rm fo md).
-  Notation here_ok2 := (here_ok2 rc rm fo md).
-  Notation g_all2 := (g_all2 rc rm fo md).
+  Notation here_ok2 := (here_ok2 rc rm fo md (st_usenum st)).
+  Notation g_all2 := (g_all2 rc rm fo md (st_usenum st)).
 
   Definition good (s : schema) : Prop :=
     forall v, g_all2 s = true -> vg v = true -> g_div s v = true ->
@@ -270,7 +270,8 @@ Section MAIN.
     apply andb_prop in Hsub as [Hsub Hgap]. apply andb_prop in Hsub as [Hsub Hgprops].
     apply andb_prop in Hsub as [Hsub Hgit]. apply andb_prop in Hsub as [Hsub Hgall].
     apply andb_prop in Hsub as [Hsub Hgany]. apply andb_prop in Hsub as [Hgn Hgone].
-    unfold here_ok2 in Hhere. apply andb_prop in Hhere as [Hhere Hrw].
+    unfold here_ok2 in Hhere. apply andb_prop in Hhere as [Hhere Henum]. cbn [core_of] in Henum.
+    apply andb_prop in Hhere as [Hhere Hrw].
     unfold here_ok in Hhere. cbn [core_of] in Hhere.
     apply andb_prop in Hhere as [Hhere Hnodup].
     apply andb_prop in Hhere as [Hhere Hpat]. apply andb_prop in Hhere as [Hhere Hsmall].
@@ -344,18 +345,18 @@ Section MAIN.
         + rewrite seq_accepts. apply Bool.andb_false_r.
       - rewrite Bool.andb_false_r. split.
         + apply seq_nopanic; [apply enum_step_nopanic|]. destruct (permits c "boolean"); reflexivity.
-        + rewrite seq_accepts, enum_step_accepts. f_equal. destruct (permits c "boolean"); reflexivity.
+        + rewrite seq_accepts, (enum_step_accepts _ _ _ Henum). f_equal. destruct (permits c "boolean"); reflexivity.
       - rewrite Bool.andb_false_r. split.
         + apply seq_nopanic; [apply enum_step_nopanic|]. apply run_checks_nopanic, num_checks_nopanic; [exact Hexcl|].
           destruct (c_mult c) as [m|] eqn:Hm; [|exact I].
           unfold g_div in Hd. cbn [nums_of forallb] in Hd. rewrite Bool.andb_true_r in Hd.
           rewrite forallb_forall in Hd. specialize (Hd m (mults_here _ _ _ _ _ _ _ _ _ Hm)).
           now apply Bool.negb_true_iff in Hd.
-        + rewrite seq_accepts, enum_step_accepts, run_checks_accepts. cbn [is_nil andb].
+        + rewrite seq_accepts, (enum_step_accepts _ _ _ Henum), run_checks_accepts. cbn [is_nil andb].
           now rewrite num_checks_ok.
       - rewrite Bool.andb_false_r. split.
         + apply seq_nopanic; [apply enum_step_nopanic|]. now apply run_checks_nopanic, str_checks_nopanic.
-        + rewrite seq_accepts, enum_step_accepts, run_checks_accepts. cbn [is_nil andb].
+        + rewrite seq_accepts, (enum_step_accepts _ _ _ Henum), run_checks_accepts. cbn [is_nil andb].
           now rewrite str_checks_ok.
       - (* array *)
         rewrite Bool.andb_false_r.
@@ -371,7 +372,7 @@ Section MAIN.
           - rewrite forallb_map'. apply forallb_ext_in. intros x Hin. apply (Hx x Hin). }
         destruct Hitems as [Inp Ia]. split.
         + apply seq_nopanic; [apply enum_step_nopanic|]. now apply run_checks_nopanic, arr_checks_nopanic.
-        + rewrite seq_accepts, enum_step_accepts, run_checks_accepts. cbn [is_nil andb].
+        + rewrite seq_accepts, (enum_step_accepts _ _ _ Henum), run_checks_accepts. cbn [is_nil andb].
           rewrite arr_checks_ok; [now rewrite Ia|exact Hsmall|].
           unfold vg in Hv. apply andb_prop in Hv as [Hv _]. apply andb_prop in Hv as [_ Hu].
           cbn [g_uniq] in Hu. now apply andb_prop in Hu as [Hu _].
@@ -398,7 +399,7 @@ Section MAIN.
           * intros k o Ho. destruct ap as [a|]; [|discriminate]. rewrite assoc_r_ap in Ho.
             destruct (assoc k l) as [x|] eqn:Hkl; [|discriminate]. injection Ho as <-.
             apply (Hq a k x eq_refl); eauto using assoc_in.
-        + rewrite seq_accepts, enum_step_accepts, run_checks_accepts. cbn [is_nil andb].
+        + rewrite seq_accepts, (enum_step_accepts _ _ _ Henum), run_checks_accepts. cbn [is_nil andb].
           rewrite obj_checks_ok by assumption.
           assert (Hg : forall k p, In (k, p) props -> forbidden md (core_of p) = true -> Sat p JNull = false).
           { intros k p Hin Hf. unfold S, g_rw_here in Hrw. rewrite forallb_forall in Hrw.
